@@ -29,11 +29,12 @@ type Config struct {
 	RegistryMaxSize  int  `json:"registry_max_size"`
 	RegistryGrowStep int  `json:"registry_grow_step"`
 	Context          bool `json:"undone_context_attached"`
+	GoStackTrace     bool `json:"include_go_stack_trace,omitempty"`
 }
 
 func (c Config) options() lua.Options {
 	return lua.Options{CallStackSize: c.CallStackSize, MinimizeStackMemory: c.MinimizeStack, RegistrySize: c.RegistrySize,
-		RegistryMaxSize: c.RegistryMaxSize, RegistryGrowStep: c.RegistryGrowStep}
+		RegistryMaxSize: c.RegistryMaxSize, RegistryGrowStep: c.RegistryGrowStep, IncludeGoStackTrace: c.GoStackTrace}
 }
 
 type EquivCase struct {
@@ -169,6 +170,7 @@ func genConfig(rt *rapid.T) Config {
 		RegistrySize:     rapid.SampledFrom([]int{1500, 2048, 4096, 4097, 5120, 5121, 10000}).Draw(rt, "rs"),
 		RegistryGrowStep: rapid.SampledFrom([]int{0, 1, 7, 32, 33}).Draw(rt, "gs"),
 		Context:          rapid.Bool().Draw(rt, "ctx"),
+		GoStackTrace:     rapid.IntRange(0, 3).Draw(rt, "gotrace") == 0,
 	}
 	switch rapid.IntRange(0, 4).Draw(rt, "maxkind") {
 	case 0:
@@ -472,7 +474,6 @@ func sortStrings(s []string) {
 	}
 }
 
-
 // ---------------------------------------------------------------------------------------------
 // growth alignment: with a growable registry every way of laying out a frame is driven across every growth boundary at
 // every alignment (depth 1..D, 0..5 extra arguments): below the limit nothing may depend on where the boundaries fall
@@ -488,16 +489,16 @@ var growKinds = map[string]struct {
 	call   string // %d depth, %s extra arguments (", 1, 2" or "")
 	expect func(d, k int) string
 }{
-	"vararg_recursion": {`local function g(d, ...) if d == 0 then return select('#', ...) end return (g(d - 1, ...)) end`, `return g(%d%s)`, func(d, k int) string { return fmt.Sprint(k) }},
+	"vararg_recursion":  {`local function g(d, ...) if d == 0 then return select('#', ...) end return (g(d - 1, ...)) end`, `return g(%d%s)`, func(d, k int) string { return fmt.Sprint(k) }},
 	"vararg_with_named": {`local function g(d, a, b, ...) local x, y = a, b if d == 0 then return select('#', ...) end return (g(d - 1, x, y, ...)) end`, `return g(%d, 'a', 'b'%s)`, func(d, k int) string { return fmt.Sprint(k) }},
-	"compat_arg_table": {`local function g(d, ...) if d == 0 then return arg.n end return (g(d - 1, unpack(arg))) end`, `return g(%d%s)`, func(d, k int) string { return fmt.Sprint(k) }},
+	"compat_arg_table":  {`local function g(d, ...) if d == 0 then return arg.n end return (g(d - 1, unpack(arg))) end`, `return g(%d%s)`, func(d, k int) string { return fmt.Sprint(k) }},
 	"plain_with_locals": {`local function g(d, a) local p, q, r = d, a, d if d == 0 then return a end return (g(d - 1, a)) end`, `return g(%d, select('#'%s))`, func(d, k int) string { return fmt.Sprint(k) }},
-	"callable_object": {`local g = setmetatable({}, {__call = function(self, d, ...) if d == 0 then return select('#', ...) end return (self(d - 1, ...)) end})`, `return g(%d%s)`, func(d, k int) string { return fmt.Sprint(k) }},
-	"method_calls": {`local o = {} function o:g(d, ...) if d == 0 then return select('#', ...) end return (self:g(d - 1, ...)) end`, `return o:g(%d%s)`, func(d, k int) string { return fmt.Sprint(k) }},
-	"through_pcall": {`local function g(d, ...) if d == 0 then return select('#', ...) end return select(2, pcall(g, d - 1, ...)) end`, `return g(%d%s)`, func(d, k int) string { return fmt.Sprint(k) }},
-	"tail_then_call": {`local h local function g(d, ...) if d == 0 then return select('#', ...) end return h(d, ...) end h = function(d, ...) local r = g(d - 1, ...) return r end`, `return g(%d%s)`, func(d, k int) string { return fmt.Sprint(k) }},
-	"varargs_in_table": {`local function g(d, ...) local t = {...} if d == 0 then return #t end return (g(d - 1, unpack(t))) end`, `return g(%d%s)`, func(d, k int) string { return fmt.Sprint(k) }},
-	"coroutine_body": {`local function g(d, ...) if d == 0 then return select('#', ...) end return (g(d - 1, ...)) end`, `return select(2, coroutine.resume(coroutine.create(g), %d%s))`, func(d, k int) string { return fmt.Sprint(k) }},
+	"callable_object":   {`local g = setmetatable({}, {__call = function(self, d, ...) if d == 0 then return select('#', ...) end return (self(d - 1, ...)) end})`, `return g(%d%s)`, func(d, k int) string { return fmt.Sprint(k) }},
+	"method_calls":      {`local o = {} function o:g(d, ...) if d == 0 then return select('#', ...) end return (self:g(d - 1, ...)) end`, `return o:g(%d%s)`, func(d, k int) string { return fmt.Sprint(k) }},
+	"through_pcall":     {`local function g(d, ...) if d == 0 then return select('#', ...) end return select(2, pcall(g, d - 1, ...)) end`, `return g(%d%s)`, func(d, k int) string { return fmt.Sprint(k) }},
+	"tail_then_call":    {`local h local function g(d, ...) if d == 0 then return select('#', ...) end return h(d, ...) end h = function(d, ...) local r = g(d - 1, ...) return r end`, `return g(%d%s)`, func(d, k int) string { return fmt.Sprint(k) }},
+	"varargs_in_table":  {`local function g(d, ...) local t = {...} if d == 0 then return #t end return (g(d - 1, unpack(t))) end`, `return g(%d%s)`, func(d, k int) string { return fmt.Sprint(k) }},
+	"coroutine_body":    {`local function g(d, ...) if d == 0 then return select('#', ...) end return (g(d - 1, ...)) end`, `return select(2, coroutine.resume(coroutine.create(g), %d%s))`, func(d, k int) string { return fmt.Sprint(k) }},
 }
 
 var chkGrow = vf.Register("growth_alignment", func(k *vf.C, c *GrowCase) error {
